@@ -63,6 +63,9 @@ var crashShapes = [][]string{
 	{"lint", "log.yaml"}, {"lint", "-s", "log.yaml"}, {"lint", "food.yaml"},
 	{"--maxdepth", "1", "--no-color", "reg"}, {"--maxdepth", "2", "csv", "database-resolved"}, {"--no-database", "report", "totals"},
 	{"--date-format", "2006-01-02", "print"},
+	// pairs of register switches
+	{"--no-color", "reg", "--use-old-reg-reporter", "--no-totals"}, {"--no-color", "reg", "--use-old-reg-reporter", "--totals-only"}, {"--no-database", "--no-color", "reg", "--use-old-reg-reporter", "--no-totals"},
+	{"reg", "--internal-template-name", "left-aligned", "--no-totals", "--shorten"}, {"reg", "--internal-template-name", "left-aligned", "--totals-only"}, {"reg", "-s", "calories", "--use-old-reg-reporter"},
 	{"--no-database", "csv", "database"}, {"--no-database", "csv", "database-resolved"}, {"--no-database", "report", "element-total", "calories"}, {"--no-database", "stats"},
 	{"--no-database", "--no-color", "reg"}, {"--no-database", "bal", "-s", "calories"}, {"-d", "", "csv", "database"}, {"-l", "", "csv", "log"}, {"-l", "", "print"},
 	{"reg", "-s", "Calories"}, {"reg", "-s", "CALORIES", "--csv"}, {"bal", "-s", "Fat"}, {"reg", "-s", "Calories", "-g"}, {"reg", "-f", "FOOD1"},
